@@ -82,7 +82,9 @@ func (c10) Run(x *Exec, scn any) {
 			Logs: []LogSpec{{Name: "lg", Type: typ, Tags: []string{"hook_*"}, Level: s.Level, Refs: []RefSpec{{Ref: "rec"}}}}}
 		cfg := spec.Render()
 		var err error
-		pv, st := call(func() { err = log.Refresh(cfg) })
+		var pv any
+		var st string
+		x.do("refresh", func() { pv, st = call(func() { err = log.Refresh(cfg) }) })
 		if pv != nil || err != nil {
 			o.violate("refresh-failed", "C10/refresh-failed/"+panicSite(st), "Refresh failed on a valid configuration: %v %v", pv, err)
 			return
